@@ -11,6 +11,7 @@ import (
 	"go/constant"
 	"go/token"
 	"go/types"
+	"os"
 	"sort"
 	"strings"
 
@@ -364,6 +365,31 @@ func (w *Walker) walkFrom(b, pred *ssa.BasicBlock, p *PState, start int) {
 		}
 		w.seenSig[b][sg] = true
 	}
+	// integer values arriving at φ-nodes that are known exactly on this path (a loop counter over a
+	// constant range): computed before a re-entry forgets the values defined in b
+	var phiExact map[*ssa.Phi]int64
+	if pred != nil {
+		for _, ins := range b.Instrs {
+			ph, ok := ins.(*ssa.Phi)
+			if !ok {
+				break
+			}
+			if !isIntegerType(ph.Type()) {
+				continue
+			}
+			for i, pb := range b.Preds {
+				if pb == pred {
+					if k, okK := foldInt(p, ph.Edges[i], 0); okK {
+						if phiExact == nil {
+							phiExact = map[*ssa.Phi]int64{}
+						}
+						phiExact[ph] = k
+					}
+					break
+				}
+			}
+		}
+	}
 	if p.visits[b] > 0 {
 		// loop re-entry: the values defined in b denote new dynamic values from now on
 		if w.Reenter != nil {
@@ -429,6 +455,9 @@ func (w *Walker) walkFrom(b, pred *ssa.BasicBlock, p *PState, start int) {
 		for i, ph := range phis {
 			p.phis[ph] = vals[i]
 			delete(p.facts, ph)
+			if k, okK := phiExact[ph]; okK {
+				p.facts[ph] = Fact{hasLo: true, hasHi: true, lo: k, hi: k}
+			}
 		}
 	}
 	w.instrs(b, p, 0)
@@ -632,6 +661,21 @@ func (p *PState) Resolve(v ssa.Value) ssa.Value {
 						continue
 					}
 				}
+				// a field of a local that was assigned as a whole from a row of a local table
+				if fa, isFA := x.X.(*ssa.FieldAddr); isFA {
+					if a, isA := fa.X.(*ssa.Alloc); isA {
+						if whole, has := p.allocs[a]; has {
+							if os.Getenv("XZV_TRACE") == "fov" {
+								r, ok := fieldOfValue(p, whole, fa.Field, 0)
+								fmt.Fprintf(os.Stderr, "FOV alloc=%s whole=%v (%T) field=%d -> %v %v\n", a.Name(), whole, whole, fa.Field, r, ok)
+							}
+							if r, ok := fieldOfValue(p, whole, fa.Field, 0); ok && r != v {
+								v = r
+								continue
+							}
+						}
+					}
+				}
 			}
 			return v
 		case *ssa.ChangeInterface:
@@ -640,10 +684,89 @@ func (p *PState) Resolve(v ssa.Value) ssa.Value {
 		case *ssa.ChangeType:
 			v = x.X
 			continue
+		case *ssa.Field:
+			// a field of a row of a local table (an array literal that is filled once and then only
+			// read), the row index being known on this path
+			if r, ok := localTableField(p, x); ok && r != v {
+				v = r
+				continue
+			}
 		}
 		return v
 	}
 	return v
+}
+
+// localTableField: x = (*&arr[i]).f with arr a local array written only by the stores of its
+// composite literal, i a known constant on the path: the value stored into arr[i].f.
+func localTableField(p *PState, x *ssa.Field) (ssa.Value, bool) {
+	ld, ok := x.X.(*ssa.UnOp)
+	if !ok || ld.Op != token.MUL {
+		return nil, false
+	}
+	ia, ok := ld.X.(*ssa.IndexAddr)
+	if !ok {
+		return nil, false
+	}
+	al, ok := ia.X.(*ssa.Alloc)
+	if !ok || al.Referrers() == nil {
+		return nil, false
+	}
+	idx, ok := foldInt(p, ia.Index, 0)
+	if !ok {
+		return nil, false
+	}
+	var found ssa.Value
+	for _, ref := range *al.Referrers() {
+		switch y := ref.(type) {
+		case *ssa.IndexAddr:
+			k, isK := constInt(y.Index)
+			if y.Referrers() == nil {
+				continue
+			}
+			for _, r2 := range *y.Referrers() {
+				switch z := r2.(type) {
+				case *ssa.FieldAddr:
+					if z.Referrers() == nil {
+						continue
+					}
+					for _, r3 := range *z.Referrers() {
+						st, isSt := r3.(*ssa.Store)
+						if !isSt {
+							if _, isLd := r3.(*ssa.UnOp); isLd {
+								continue
+							}
+							return nil, false
+						}
+						if !isK {
+							return nil, false // a store at a computed index: not a table
+						}
+						if k == idx && z.Field == x.Field {
+							if found != nil {
+								return nil, false
+							}
+							found = st.Val
+						}
+					}
+				case *ssa.UnOp, *ssa.DebugRef:
+				case *ssa.Store:
+					return nil, false // whole rows stored: not handled
+				default:
+					return nil, false
+				}
+			}
+		case *ssa.DebugRef:
+		case *ssa.UnOp:
+		case *ssa.Slice:
+			// ranging over arr[:] reads only
+		default:
+			return nil, false
+		}
+	}
+	if found == nil {
+		return nil, false
+	}
+	return p.Resolve(found), true
 }
 
 // addrKey gives a path-stable key for a field address: root identity + field chain.
@@ -755,6 +878,9 @@ func frozenLoad(c *Ctx, p *PState, addr ssa.Value, idxEval func(ssa.Value) (int6
 
 // foldInt: the integer v denotes on this path (constants, exact facts, + and - of such).
 func foldInt(p *PState, v ssa.Value, depth int) (int64, bool) {
+	if f, ok := factOf(p, v); ok && f.hasLo && f.hasHi && f.lo == f.hi {
+		return f.lo, true // (a φ keeps the exact value it was assigned on this path)
+	}
 	if p != nil {
 		v = p.Resolve(v)
 	}
@@ -1582,4 +1708,107 @@ func (c *Ctx) tinyPure(fn *ssa.Function) bool {
 		}
 	}
 	return true
+}
+
+// fieldOfValue: field fld of the struct value v, when v is (a row of) a local composite literal
+// whose parts were each stored exactly once.
+func fieldOfValue(p *PState, v ssa.Value, fld int, depth int) (ssa.Value, bool) {
+	if depth > 4 {
+		return nil, false
+	}
+	switch x := v.(type) {
+	case *ssa.UnOp:
+		if x.Op != token.MUL {
+			return nil, false
+		}
+		a, ok := x.X.(*ssa.Alloc)
+		if !ok || a.Referrers() == nil {
+			return nil, false
+		}
+		var found ssa.Value
+		for _, ref := range *a.Referrers() {
+			switch y := ref.(type) {
+			case *ssa.FieldAddr:
+				if y.Referrers() == nil {
+					continue
+				}
+				for _, r2 := range *y.Referrers() {
+					if st, isSt := r2.(*ssa.Store); isSt {
+						if y.Field == fld {
+							if found != nil {
+								return nil, false
+							}
+							found = st.Val
+						}
+					}
+				}
+			case *ssa.Store:
+				if y.Addr == ssa.Value(a) {
+					return nil, false
+				}
+			}
+		}
+		if found == nil {
+			return nil, false
+		}
+		return p.Resolve(found), true
+	case *ssa.Index:
+		k, ok := foldInt(p, x.Index, 0)
+		if !ok {
+			return nil, false
+		}
+		ld, ok := x.X.(*ssa.UnOp)
+		if !ok || ld.Op != token.MUL {
+			return nil, false
+		}
+		arr, ok := ld.X.(*ssa.Alloc)
+		if !ok || arr.Referrers() == nil {
+			return nil, false
+		}
+		var row, cell ssa.Value
+		for _, ref := range *arr.Referrers() {
+			ia, isIA := ref.(*ssa.IndexAddr)
+			if !isIA || ia.Referrers() == nil {
+				continue
+			}
+			kk, isK := constInt(ia.Index)
+			for _, r2 := range *ia.Referrers() {
+				if st, isSt := r2.(*ssa.Store); isSt && st.Addr == ssa.Value(ia) {
+					if !isK {
+						return nil, false
+					}
+					if kk == k {
+						if row != nil {
+							return nil, false
+						}
+						row = st.Val
+					}
+				}
+				// the row filled field by field: &arr[k].f = v
+				if fa, isFA := r2.(*ssa.FieldAddr); isFA && fa.Referrers() != nil {
+					for _, r3 := range *fa.Referrers() {
+						if st, isSt := r3.(*ssa.Store); isSt && st.Addr == ssa.Value(fa) {
+							if !isK {
+								return nil, false
+							}
+							if kk == k && fa.Field == fld {
+								if cell != nil {
+									return nil, false
+								}
+								cell = st.Val
+							}
+						}
+					}
+				}
+			}
+		}
+		if cell != nil && row == nil {
+			return p.Resolve(cell), true
+		}
+		if row == nil {
+			return nil, false
+		}
+		return fieldOfValue(p, row, fld, depth+1)
+	}
+	return nil, false
 }
